@@ -16,10 +16,10 @@ import json
 import logging
 
 from harness import vloop
-from harness.c02_util import PROTO_CLASS, make_session, settle
+from harness.c02_util import PROTO_CLASS, case_wire, make_session, resp_len, settle
 from harness.c02 import (_prepare, batch_oracle, classify_member, decode_entry, impl_text,
                          limit_changes, limits_of, model_line, normalise_model, random_case,
-                         result_for, setlim_answer_ok, single_cases, single_oracle)
+                         result_for, setlim_answer_ok, single_cases, single_oracle, nonfinite_cases)
 
 SETLIM_ID = 880088
 from tools.facts.common import fresh_import
@@ -98,7 +98,7 @@ async def run_scenario(mods, case):
         return rec
     rec = {'raised': None, 'calls': [], 'lens': [], 'exc': None, 'items': None, 'rawlens': [],
            'extra': 0}
-    p.data_received(json.dumps(case['members']).encode() + b'\n')
+    p.data_received(case_wire(case) + b'\n')
     await settle(10)
     first = take(transport)
     if first:
@@ -109,7 +109,7 @@ async def run_scenario(mods, case):
     kinds = [classify_member(case.get('inforce', case['proto']), m) for m in case['members']]
     for m, lim in zip(case['order'], limits_of(case)):
         result, _ = result_for(jr, m, m in errs)
-        rec['lens'].append(len(inforce.response_message(result, kinds[m][1])))
+        rec['lens'].append(resp_len(inforce, result, kinds[m][1]))
         rec['extra'] += len(await change_limit(lim))      # a batch message here is one too early
         gates.setdefault(m, asyncio.Event()).set()
         await settle(10)
@@ -132,7 +132,7 @@ async def run_scenario(mods, case):
 async def _single(jr, p, transport, session, case, gates, seen_notifs, change_limit):
     """one request / notification through the serving session: what is written"""
     rec = {'exc': None, 'reply': None, 'len': 0, 'items': None, 'raised': None, 'extra': 0}
-    p.data_received(json.dumps(case['single']).encode() + b'\n')
+    p.data_received(case_wire(case) + b'\n')
     await settle(10)
     first = [m for m, _n in take(transport)]
     kind = classify_member(case.get('inforce', case['proto']), case['single'])
@@ -142,7 +142,7 @@ async def _single(jr, p, transport, session, case, gates, seen_notifs, change_li
     if kind[0] == 'req':
         inforce = getattr(jr, PROTO_CLASS[case.get('inforce', case['proto'])])
         result, _ = result_for(jr, 0, case.get('err'))
-        rec['len'] = len(inforce.response_message(result, kind[1]))
+        rec['len'] = resp_len(inforce, result, kind[1])
         rec['extra'] += len(await change_limit(limits_of(case)[0]))
         gates.setdefault(0, asyncio.Event()).set()
         await settle(10)
@@ -224,6 +224,11 @@ def run(ctx, res):
     ] + limit_scenarios(jr) + cases
     singles = single_cases(jr)
     cases += singles[::(3 if ctx.tier == 'thorough' else 9)]
+    # request ids that are non-finite floats (raw wire text `1e999`, `Infinity`, `NaN`, ..): every
+    # such single without a limit, and every composition up to 2 members of the connection-level
+    # family (duplicates, mixed with ordinary ids, invalid members carrying them), unlimited
+    cases += [c for c in singles if c['max'] == 0 and 'lim' not in c and _nonfinite_single(c)]
+    cases += [c for c in nonfinite_cases(jr, 3 if ctx.tier == 'thorough' else 2, ('v2', 'loose')) if c['max'] == 0]
     # every third of the singles whose limit changes between receipt and result (all of them at
     # depth), alternately through another request's handler and through the attribute
     moving = [dict(c, via=('handler', 'attr')[k % 2])
@@ -233,6 +238,11 @@ def run(ctx, res):
         if 'lims' in c and 'via' not in c:
             c['via'] = ('handler', 'attr')[k % 3 == 2]
     _evaluate(ctx, cases, res)
+
+
+def _nonfinite_single(c):
+    idv = c['single'].get('id') if isinstance(c['single'], dict) else None
+    return isinstance(idv, float) and (idv != idv or abs(idv) > 1e300)
 
 
 def limit_scenarios(jr):
